@@ -1,6 +1,8 @@
 package main
 
 import (
+	"verif/internal/checks/c07"
+	"verif/internal/checks/c19"
 	"math/big"
 	"verif/internal/checks/c08"
 	"verif/internal/ev"
@@ -58,7 +60,7 @@ func relayCfg(id, tier string) relay.Config {
 		return c
 	case "C04":
 		c := relay.Config{Prop: id, Chains: 3, MaxSends: 3, Depth: 5,
-			Sends: []string{"A B erc20 1", "A C erc20 1", "A B unknown 1", "A B erc20 20000", "A B feeonly1 1", "A B direct 1", "B A erc20+agentgood 3", "B A erc20+agentbad 3", "A B native 1", "A B native+ctor 1"},
+			Sends: []string{"A B erc20 1", "A C erc20 1", "A B unknown 1", "A B erc20 20000", "A B feeonly1 1", "A B direct 1", "B A erc20+agentgood 3", "B A erc20+agentbad 3", "A B native 1", "A B native+ctor 1", "A B forgedlog 1"},
 			RecvForms: []string{"g1"}, AckForms: []string{"g1"}}
 		if tier == "thorough" {
 			c.MaxSends, c.Depth = 4, 9
@@ -67,7 +69,7 @@ func relayCfg(id, tier string) relay.Config {
 	case "C05":
 		c := relay.Config{Prop: id, Chains: 2, MaxSends: 2, Depth: 12,
 			Sends: []string{"A B erc20 3", "A B erc20+callrevert 1", "B A native 3", "A B feeonly1 1", "A B erc20+hookfail 1", "A B erc20+agentbad 1"},
-			RecvForms: []string{"g1", "g2", "g3"}, AckForms: []string{"g1", "g2", "old", "conflict", "early", "dup2", "altpkt"}}
+			RecvForms: []string{"g1", "g2", "g3"}, AckForms: []string{"g1", "g2", "old", "conflict", "early", "dup2", "altpkt", "altfee"}}
 		if tier == "thorough" {
 			c.MaxSends, c.Depth = 3, 16
 		}
@@ -91,7 +93,7 @@ func relayTSSCfg(id, tier string) relay.Config {
 	case "C05":
 		c := relay.Config{Prop: id, TSS: true, Chains: 2, MaxSends: 2, Depth: 9,
 			Sends:     []string{"A B erc20 3", "A B erc20+callrevert 1", "B A native 3"},
-			RecvForms: []string{"g1", "g2"}, AckForms: []string{"g1", "g2", "conflict", "early", "dup2", "altpkt"}}
+			RecvForms: []string{"g1", "g2"}, AckForms: []string{"g1", "g2", "conflict", "early", "dup2", "altpkt", "altfee"}}
 		if tier == "thorough" {
 			c.MaxSends, c.Depth = 3, 12
 		}
@@ -105,6 +107,10 @@ func relayTSSCfg(id, tier string) relay.Config {
 // genesis export and import) which needs several paths per chain to bite.
 func scripted(prop string) func(r *ev.Run, tier string) (int64, int64) {
 	return func(r *ev.Run, tier string) (int64, int64) {
+		if prop == "C01" {
+			// the exactly-once guard looks receipts and acknowledgements up by name: they must be found under exactly the written triple
+			r.Count("point_lookup_cases", c19.PointLookups(r, c07.NewHost(), "C01"))
+		}
 		steps, vs := relay.ScriptedViolations(prop)
 		for _, v := range vs {
 			r.Violation(v.Sig, v.Detail, map[string]interface{}{"engine": "bfs", "check": prop, "tier": "script", "history": v.History})
